@@ -8,7 +8,7 @@ for f in sorted(glob.glob('/verif/seeded/*/meta.json')):
     ok = c.get('demo_without_patch_exit') == 0 and c.get('build_exit') == 0 and c.get('existing_tests_exit') == 0 and c.get('demo_with_patch_exit') not in (0, None)
     rows.append((name, m.get('property', ''), (m.get('summary', '') or '').replace('\n', ' ').replace('|', '/')[:220],
                  (m.get('needs_to_manifest', '') or '').replace('\n', ' ').replace('|', '/')[:200],
-                 'yes' if ok else 'NO', 'detected' if k.get('detected') else 'MISSED', m.get('caught_by', '')))
+                 'yes' if ok else 'NO', ('detected' if k.get('detected') else ('detected by ./check '+','.join(p for p,v in m.get('cross',{}).items() if v.get('detected')) if any(v.get('detected') for v in m.get('cross',{}).values()) else ('equivalent (see EQUIVALENT.md)' if os.path.exists(os.path.dirname(f)+'/EQUIVALENT.md') else 'MISSED'))), m.get('caught_by', '') or '; '.join(v.get('caught_by','') for v in m.get('cross',{}).values() if v.get('detected'))))
 with open('/verif/docs/seeded.md', 'w') as o:
     o.write('# Seeded changes and what the checks do with them\n\n')
     o.write('Each change was produced by a sub-agent that saw only the property text and its own worktree, confirmed here in a scratch worktree (builds, existing tests pass, its demonstration fails with and passes without the change), applied to /repo, checked with `./check <id> --tier quick`, and reverted.\n\n')
